@@ -165,6 +165,15 @@ def _exhaustive(run, kmax):
             for bs, be in (("-", "-"), ("0", "20"), ("2", "-"), ("-", "7")):
                 run.count("acoll")
                 yield f"acoll {bs} {be} {enc_blocks(gl)} {enc_blocks(fl)}"
+    # every kind of member, variant collections included (also on their own)
+    vspans = [(s, e) for (s, e) in SPANS if e > s]
+    vlists = [list(p) for n in range(0, 3) for p in itertools.product(vspans[:4], repeat=n)]
+    short = [list(p) for n in range(0, 2) for p in itertools.product(SPANS, repeat=n)]
+    for gl in short:
+        for fl in short:
+            for vl in vlists:
+                run.count("aciter")
+                yield f"aciter {enc_blocks(gl)} {enc_blocks(fl)} {enc_blocks(vl)}"
     # with a chromosome parent: location inside / around / beside the members, or a parent without location
     small = [list(p) for n in range(0, 2) for p in itertools.product(SPANS, repeat=n)] + [[(3, 8), (0, 5)]]
     for ps, pe in (("0", "50"), ("4", "6"), ("10", "20"), ("-", "-")):
